@@ -17,3 +17,20 @@ package tk
 //@   loop 1 invariant len(allLines) <= height || height < 0
 //@   loop 1 invariant ncalls == 0
 //@   before Renderer.Render [no-more-lines-than-the-height] height >= 0 ==> len(allLines) <= height
+
+// C34 (widgets): a text view writes into a buffer exactly as wide as the text
+// area (one column narrower when the scrollbar is shown), crops every line to
+// that same width - so no line can wrap onto an extra row - and writes at most
+// `height` lines.
+//@ func textView.Render
+//@   props C34
+//@   requires 2 <= width && width < 1073741824
+//@   skip slice
+//@   skip index
+//@   opaque VScrollbar.Render NewBufferBuilder
+//@   skip pre:Newline
+//@   log term.NewBufferBuilder wcwidth.Trim BufferBuilder.Newline
+//@   loop 1 invariant ncallsof("wcwidth.Trim") == i - first && first <= i && (height >= 0 ==> i <= first + height) && ncalls >= 1 && callis(0, "term.NewBufferBuilder")
+//@   before wcwidth.Trim [cropped-to-the-width-of-the-buffer] callis(0, "term.NewBufferBuilder") && arg1 == callarg(0).(int)
+//@   exit [text-area-is-the-width-minus-the-scrollbar] callis(0, "term.NewBufferBuilder") && (callarg(0).(int) == width || callarg(0).(int) == width - 1)
+//@   exit [at-most-height-lines] height >= 0 ==> ncallsof("wcwidth.Trim") <= height
